@@ -80,6 +80,9 @@ func hasDupKeys(v *jv) bool {
 
 func execOp(op string, o *proto.Out) string {
 	w := strings.Fields(op)
+	if len(w) > 0 && w[0] == "txn" {
+		return execTxn(op, w, o)
+	}
 	if len(w) == 0 || w[0] != "obf" {
 		return "bad-op"
 	}
@@ -119,6 +122,53 @@ func execOp(op string, o *proto.Out) string {
 			return "whole"
 		}
 	}
+	c := canonDoc(op, doc, out, o)
+	if strings.HasPrefix(c, "garbage") {
+		return c
+	}
+	return "ok " + c
+}
+
+// harToken classifies what the collector exported for one body: `empty`, `whole` or `ok:<canonical document>`.
+func harToken(op, doc, out string, o *proto.Out) string {
+	if doc == "" && out == "" {
+		o.Count("out-empty")
+		return "empty"
+	}
+	if out == md5hex(doc) {
+		o.Count("out-whole")
+		return "whole"
+	}
+	c := canonDoc(op, doc, out, o)
+	if strings.HasPrefix(c, "garbage") {
+		return "other"
+	}
+	return "ok:" + c
+}
+
+func execTxn(op string, w []string, o *proto.Out) string {
+	exEnc, ok1 := proto.KV(w, "ex")
+	rq, ok2 := proto.KV(w, "req")
+	rs, ok3 := proto.KV(w, "resp")
+	if !ok1 || !ok2 || !ok3 {
+		return "bad-op"
+	}
+	var ex []string
+	if err := json.Unmarshal([]byte(proto.Dec(exEnc)), &ex); err != nil {
+		return "bad-op"
+	}
+	o.Count("txn")
+	reqBody, respBody := proto.Dec(rq), proto.Dec(rs)
+	ro, so, err := harTxn(ex, reqBody, respBody)
+	if err != nil {
+		panic(err)
+	}
+	return "req=" + harToken(op, reqBody, ro, o) + " resp=" + harToken(op, respBody, so, o)
+}
+
+// canonDoc re-reads an exported document, maps MD5 values of the input's leaves back to H(pre-image) and
+// re-prints it canonically (percent-encoded); `garbage <enc>` when the export is not JSON.
+func canonDoc(op, doc, out string, o *proto.Out) string {
 	tbl := map[string]string{}
 	in, inErr := parseJSON(doc)
 	if inErr == nil {
@@ -154,7 +204,7 @@ func execOp(op string, o *proto.Out) string {
 	default:
 		o.Count("out-no-leaves")
 	}
-	return "ok " + proto.Enc(b.String())
+	return proto.Enc(b.String())
 }
 
 func countNonString(v *jv) int {
@@ -192,10 +242,7 @@ func main() {
 
 // ---------------------------------------------------------------------------- op construction
 
-func opLine(side string, ex []string, doc string) string {
-	if ex == nil {
-		ex = []string{}
-	}
+func exJSON(ex []string) string {
 	var b strings.Builder
 	b.WriteByte('[')
 	for i, e := range ex {
@@ -205,7 +252,15 @@ func opLine(side string, ex []string, doc string) string {
 		escStr(&b, e)
 	}
 	b.WriteByte(']')
-	return fmt.Sprintf("obf side=%s ex=%s doc=%s", side, proto.Enc(b.String()), proto.Enc(doc))
+	return b.String()
+}
+
+func opLine(side string, ex []string, doc string) string {
+	return fmt.Sprintf("obf side=%s ex=%s doc=%s", side, proto.Enc(exJSON(ex)), proto.Enc(doc))
+}
+
+func txnLine(ex []string, reqDoc, respDoc string) string {
+	return fmt.Sprintf("txn ex=%s req=%s resp=%s", proto.Enc(exJSON(ex)), proto.Enc(reqDoc), proto.Enc(respDoc))
 }
 
 func note(side, c string) string {
